@@ -10,7 +10,7 @@ from harness.common import qlit, zlit, optlit, listlit
 from harness import exact as X
 
 VFILES = ['Lib/PySlice.v', 'Gen/GenConsts.v', 'Model/FastLen.v', 'Gen/GenUtils.v', 'Model/Ledger.v', 'Model/Band.v',
-          'Model/Concat.v', 'Proofs/BandProofs.v', 'Proofs/ConcatProofs.v', 'Proofs/ConcatMore.v', 'Proofs/ConcatAssoc.v', 'Proofs/ConcatGroup.v', 'Props/C10.v']
+          'Model/Concat.v', 'Proofs/BandProofs.v', 'Proofs/ConcatProofs.v', 'Proofs/ConcatMore.v', 'Proofs/ConcatAssoc.v', 'Proofs/ConcatGroup.v', 'Gen/GenConcat.v', 'Proofs/ConcatGen.v', 'Props/C10.v']
 ALIGN = {'bottom': 0, 'center': 1, 'top': 2}
 CLS = {c: i for i, c in enumerate(X.CLASSES)}
 EPS = Fraction(86400, 2 ** 51)     # Time.isclose default: 2 * eps(float64) days
@@ -222,7 +222,7 @@ def run(ctx):
     # --- perturbations (malformed stream): must raise ---------------------------------------------
     for i in range(n_pert):
         z = base(L=rng.randint(4, 60))
-        kind = rng.choice(['time_shift', 'order', 'rate', 'class', 'chan_bw', 'freq_shift', 'offaxis_start', 'offaxis_labels', 'empty', 'freq_on_signal'])
+        kind = rng.choice(['time_shift', 'time_shift_masked', 'order', 'rate', 'class', 'chan_bw', 'freq_shift', 'offaxis_start', 'offaxis_labels', 'empty', 'freq_on_signal'])
         if kind in ('chan_bw', 'freq_shift', 'offaxis_labels') and not isinstance(z, pb.RadioSignal):
             z = base(cls=rng.choice(X.RADIO), L=rng.randint(4, 60))
         if kind == 'chan_bw' and rng.random() < 0.5 and not isinstance(z, pb.BasebandSignal):
@@ -239,6 +239,22 @@ def run(ctx):
         if kind == 'freq_on_signal':
             ps, cuts, er = time_pieces(z, 0)
             emit(kind, inp, ps, 'freq', 1, z, None, must_raise=True)
+            continue
+        if kind == 'time_shift_masked':
+            # three to five pieces, some without a start time (at least two with one), ONE timed piece moved by whole samples: whatever
+            # lies between the timed pieces, the sequence is not contiguous and must be refused
+            L = len(z)
+            k = rng.randint(3, 5)
+            cuts = sorted(rng.randint(0, L) for _ in range(k - 1))
+            bounds = [0] + cuts + [L]
+            ps = [z[a:b] for a, b in zip(bounds[:-1], bounds[1:])]
+            timed = sorted(rng.sample(range(k), rng.randint(2, k)))
+            j = rng.choice(timed)
+            d = rng.choice([1, -1, 2, -3, 10])
+            ps = [p if i in timed else type(p).like(p, start_time=None) for i, p in enumerate(ps)]
+            ps[j] = type(z).like(ps[j], start_time=ps[j].start_time + d * z.dt)
+            inp.update(samples=d, pieces=[len(p) for p in ps], timed=timed, moved=j)
+            emit(kind, inp, ps, rng.choice([0, 'time']), 0, z, None, must_raise=True)
             continue
         if kind in ('time_shift', 'order', 'rate', 'class', 'chan_bw'):
             L = len(z)
